@@ -267,6 +267,23 @@ def run_pushforward(case):
             if Sd.shape != (200000, 2) or not (lo <= kk_ <= hi):
                 bad("seeded_sample_outside_band", {"x": x, "random_state": kind, "empirical": kk_ / len(Sd), "exact": b,
                                                    "band": [lo / len(Sd), hi / len(Sd)]})
+    # explicitly seeded samples by their Rosenblatt transform under the exact push-forward (no cubature involved):
+    # u1 = F_Hs(hs), u2 = F(tz | hs) must be uniform (DKW) and independent (3x3 Hoeffding)
+    for kind, rs_ in (("int", 7), ("npint", np.int64(11)), ("generator", np.random.default_rng(13))):
+        Sd = np.asarray(t.draw_sample(100000, random_state=rs_), dtype=float)
+        n += 1
+        if Sd.shape != (100000, 2) or not np.all(np.isfinite(Sd)):
+            bad("seeded_sample_shape", {"random_state": kind, "shape": list(Sd.shape)})
+            continue
+        u1 = np.clip(np.asarray(m.distributions[0].cdf(Sd[:, 0]), dtype=float), 0, 1)
+        u2 = np.clip(tz_given_hs_cdf(m, Sd[:, 1], Sd[:, 0]), 0, 1)
+        eps = stats.dkw_eps(len(Sd))
+        d1, d2 = stats.sup_distance(np.sort(u1)), stats.sup_distance(np.sort(u2))
+        if d1 > eps or d2 > eps:
+            bad("seeded_sample_not_push_forward", {"random_state": kind, "sup_distance": [d1, d2], "dkw_eps": eps})
+        worst, e9 = stats.independence_3x3(np.c_[u1, u2])
+        if worst > e9:
+            bad("seeded_sample_components_dependent", {"random_state": kind, "worst_cell_deviation": worst, "hoeffding_eps": e9})
     return {"viol": viol, "n": n, "nontrivial": n, "outcomes": [f"push:{len(viol)}"], "count": count}
 
 
